@@ -733,6 +733,102 @@ def rule_alignspec(chk, prog, tier):
     r.exhaustive = False
 
 
+# ------------------------------------------------------------------ C06.g member access
+
+def rule_member_access(chk, prog, tier):
+    r = chk.rule('C06.g', 's.m and p->m designate the storage at the member\'s offset (through anonymous members), with the member\'s type, and carry the bit-field position of m: the expression built is *(T *)((char *)&s + offsetof(S, m)) [bits]',
+                 floor=30, oracle='C11 6.5.2.3; offsets as decided by C06.a/d')
+    pf = prog.require_func('postfixexpr', 'expr.c')
+    jobs = []
+    for ti, tree in enumerate(TREES):
+        def names(u, pre=0):
+            for (n, mt), off in zip(u[1], offsets(u)):
+                if n is None: yield from names(mt, pre + off)
+                else: yield n, pre + off, mt
+        for n, off, mt in names(tree):
+            for access in ('TPERIOD', 'TARROW'):
+                jobs.append((ti, n, off, mt, access, None))
+    # bit-fields: struct { unsigned a:3, b:5; unsigned :0; unsigned c:9; int d; }
+    BF = [('a', 0, 0, 29), ('b', 0, 3, 24), ('c', 4, 0, 23), ('d', 8, 0, 0)]
+    for n, off, bb, ba in BF:
+        for access in ('TPERIOD', 'TARROW'):
+            jobs.append(('bf', n, off, 'int', access, (bb, ba)))
+    for ti, n, off, mt, access, bits in jobs:
+        def runner(it):
+            w = World(prog, it=it, target='x86_64-sysv')
+            def build(t):
+                if isinstance(t, str): return w.t(t)
+                if t[0] == 'array': return it.call('mkarraytype', [build(t[1]), 0, t[2]])
+                size, align = tsize(t)
+                ty = w.mkstruct(size=size, align=align, kind='TYPESTRUCT' if t[0] == 'struct' else 'TYPEUNION')
+                prev = None
+                for (mn, mty), o in zip(t[1], offsets(t)):
+                    m = Obj('member:%s' % mn, 'heap')
+                    m.f.update({('name',): Ptr(it.mkstr(list(mn.encode()), mn), (0,)) if mn else None, ('type',): build(mty), ('qual',): 0, ('offset',): o,
+                                ('bits', 'before'): 0, ('bits', 'after'): 0, ('next',): None})
+                    if prev is None: ty.obj.f[('u', 'structunion', 'members')] = Ptr(m, ())
+                    else: prev.f[('next',)] = Ptr(m, ())
+                    prev = m
+                return ty
+            if ti == 'bf':
+                st = w.mkstruct(size=12, align=4); prev = None
+                for mn, o, bb, ba in BF:
+                    m = Obj('member:%s' % mn, 'heap')
+                    m.f.update({('name',): Ptr(it.mkstr(list(mn.encode()), mn), (0,)), ('type',): w.t('uint' if mn != 'd' else 'int'), ('qual',): 0, ('offset',): o,
+                                ('bits', 'before'): bb, ('bits', 'after'): ba, ('next',): None})
+                    if prev is None: st.obj.f[('u', 'structunion', 'members')] = Ptr(m, ())
+                    else: prev.f[('next',)] = Ptr(m, ())
+                    prev = m
+            else:
+                st = build(TREES[ti])
+            if access == 'TPERIOD':
+                base = w.temp(st, 's'); base.obj.f[('lvalue',)] = 1
+            else:
+                base = w.temp(w.mkptr(st, 0), 'p')
+            seq = [access, 'TIDENT', 'TSEMICOLON']; stt = {'i': 0}
+            tokobj = it.gobj('tok')
+            def load():
+                k = seq[min(stt['i'], len(seq) - 1)]
+                tokobj.f[('kind',)] = ev(prog, k)
+                tokobj.f[('lit',)] = Ptr(it.mkstr(list(n.encode()), n), (0,)) if k == 'TIDENT' else None
+                tokobj.f[('loc', 'file')] = None; tokobj.f[('loc', 'line')] = 1; tokobj.f[('loc', 'col')] = 1
+            it.models.update({'next': lambda i2, a, e: (stt.__setitem__('i', stt['i'] + 1), load(), None)[2], 'free': lambda i2, a, e: None,
+                              'xmalloc': lambda i2, a, e: Ptr(Obj('heap@%s' % e.get('line'), 'heap'), ()),
+                              'error': lambda i2, a, e: (_ for _ in ()).throw(Terminal('error', cmodel.fmt_of(i2, a, 1))),
+                              'fatal': lambda i2, a, e: (_ for _ in ()).throw(Terminal('fatal', cmodel.fmt_of(i2, a, 0)))})
+            load()
+            e = it.call(pf, [Ptr(Obj('scope', 'heap'), ()), base])
+            K = lambda x: it.load(x.obj, ('kind',))
+            gb = None
+            if K(e) == ev(prog, 'EXPRBITFIELD'):
+                gb = (it.load(e.obj, ('u', 'bitfield', 'bits', 'before')), it.load(e.obj, ('u', 'bitfield', 'bits', 'after')))
+                e = it.load(e.obj, ('base',))
+            # an array member decays: look through the decay node
+            if K(e) == ev(prog, 'EXPRUNARY') and it.load(e.obj, ('op',)) == ev(prog, 'TBAND') and it.load(e.obj, ('decayed',)):
+                e = it.load(e.obj, ('base',))
+            if not (K(e) == ev(prog, 'EXPRUNARY') and it.load(e.obj, ('op',)) == ev(prog, 'TMUL')): return ('shape', 'not an indirection', gb)
+            ety = it.load(e.obj, ('type',))
+            add = it.load(e.obj, ('base',))
+            if not (K(add) == ev(prog, 'EXPRBINARY') and it.load(add.obj, ('op',)) == ev(prog, 'TADD')): return ('shape', 'no base + offset', gb)
+            rr = it.load(add.obj, ('u', 'binary', 'r')); ll = it.load(add.obj, ('u', 'binary', 'l'))
+            if K(rr) != ev(prog, 'EXPRCONST'): return ('shape', 'offset is not a constant', gb)
+            while K(ll) == ev(prog, 'EXPRCAST'): ll = it.load(ll.obj, ('base',))
+            if access == 'TPERIOD':
+                okbase = K(ll) == ev(prog, 'EXPRUNARY') and it.load(ll.obj, ('op',)) == ev(prog, 'TBAND') and it.load(ll.obj, ('base',)).obj is base.obj
+            else:
+                okbase = ll.obj is base.obj
+            return ('ok' if okbase else 'shape', it.load(rr.obj, ('u', 'constant', 'u')), gb, it.load(ety.obj, ety.path + ('size',)))
+        runs = explore(prog, runner, {}, max_runs=4, on_unsupported='keep')
+        if len(runs) != 1 or runs[0].outcome != 'return':
+            raise AnalysisBroken('postfixexpr %s.%s: %s %s' % (ti, n, runs[0].outcome if runs else '?', runs[0].detail if runs else ''))
+        v = runs[0].value
+        want_size = 4 if ti == 'bf' else tsize(mt)[0]
+        ok = v[0] == 'ok' and v[1] == off and v[2] == (bits if bits and any(bits) else None) and v[3] == want_size
+        r.instance(ok, 'member-access:T%s%s%s' % (ti, '.' if access == 'TPERIOD' else '->', n), 'expr.c:%s' % pf.get('line'),
+                   'expected storage at offset %d of size %d, bits %s; got %s' % (off, want_size, bits, v))
+    r.exhaustive = False
+
+
 def run(chk, tier):
     prog = facts.programs()['cproc-qbe']
     chk.guard('C06.a', lambda: rule_layout(chk, prog, tier))
@@ -742,3 +838,4 @@ def run(chk, tier):
     chk.guard('C06.d', lambda: rule_offsetof(chk, prog, tier))
     chk.guard('C06.e', lambda: rule_arrays(chk, prog, tier))
     chk.guard('C06.f', lambda: rule_alignspec(chk, prog, tier))
+    chk.guard('C06.g', lambda: rule_member_access(chk, prog, tier))
